@@ -18,6 +18,7 @@ import (
 	stream_forwarding "github.com/aperturerobotics/bifrost/stream/forwarding"
 	stream_relay "github.com/aperturerobotics/bifrost/stream/relay"
 	stream_srpc_server "github.com/aperturerobotics/bifrost/stream/srpc/server"
+	stream_srpc_server_lookup "github.com/aperturerobotics/bifrost/stream/srpc/server/lookup"
 	"github.com/aperturerobotics/controllerbus/controller"
 	"github.com/aperturerobotics/controllerbus/directive"
 	"github.com/blang/semver/v4"
@@ -228,6 +229,21 @@ func TestC34(t *testing.T) {
 				return
 			}
 			cases = append(cases, handlerCase{"srpc-server", fmt.Sprintf("protocols=%q peers=[%s]", psn, strings.Join(ln, ",")), c, func(s in) bool {
+				return contains(pl, s.pid) && (len(ll) == 0 || contains(ll, s.local))
+			}})
+			// the same RPC server built through its other constructor (the lookup
+			// controller: NewServerWithMux) with the same filters
+			lconf := &stream_srpc_server_lookup.Config{ProtocolIds: psn, PeerIds: ls}
+			if lconf.Validate() != nil {
+				reject("srpc-server-lookup", "validate")
+				return
+			}
+			lc, err := stream_srpc_server_lookup.NewController(nil, le, lconf)
+			if err != nil {
+				reject("srpc-server-lookup", "construct")
+				return
+			}
+			cases = append(cases, handlerCase{"srpc-server-lookup", fmt.Sprintf("protocols=%q peers=[%s]", psn, strings.Join(ln, ",")), lc, func(s in) bool {
 				return contains(pl, s.pid) && (len(ll) == 0 || contains(ll, s.local))
 			}})
 		})
